@@ -184,6 +184,7 @@ static int runOnce(const Scenario &S, long throwAt, long allocFailAt) {
     if (!build(v, m, S.get("heap"), S.get("size"), S.get("capa"), 100)) return 3;
     Vec2 o; std::vector<int> mo;
     bool two = S.op == "swap2" || S.op == "op_assign_move" || S.op == "swap";
+    const bool otherObj = S.op == "copy_ctor" || S.op == "move_ctor" || S.op == "count_ctor";   // the object under test is a new vector, not v
     if (two && !build(o, mo, S.get("o_heap"), S.get("o_size"), S.get("o_capa"), 500)) return 3;
     Tracked ext(42);
     const long pos = S.get("pos"), pos2 = S.get("pos2"), count = S.get("count"), src = S.get("src");
@@ -213,6 +214,20 @@ static int runOnce(const Scenario &S, long throwAt, long allocFailAt) {
       else if (S.op == "assign_count") { v.assign(static_cast<typename Vec::size_type>(count), *arg); m.assign((size_t)count, argv); }
       else if (S.op == "append_count") { v.append(static_cast<typename Vec::size_type>(count)); m.insert(m.end(), (size_t)count, -7); }
       else if (S.op == "append_count_v") { v.append(static_cast<typename Vec::size_type>(count), *arg); m.insert(m.end(), (size_t)count, argv); }
+      else if (S.op == "assign_range" || S.op == "insert_range" || S.op == "append_range") {
+        std::vector<Tracked> srcv; for (long i = 0; i < S.get("cnt"); ++i) srcv.emplace_back(900 + (int)i);
+        std::vector<int> srcm; for (const auto &e : srcv) srcm.push_back(e.v);
+        L.copies = 0;
+        if (S.op == "assign_range") { v.assign(srcv.data(), srcv.data() + srcv.size()); m = srcm; }
+        else if (S.op == "append_range") { v.append(srcv.data(), srcv.data() + srcv.size()); m.insert(m.end(), srcm.begin(), srcm.end()); }
+        else { ret = v.insert(v.begin() + pos, srcv.data(), srcv.data() + srcv.size()) - v.begin(); m.insert(m.begin() + pos, srcm.begin(), srcm.end()); }
+        L.throwAt = -1;
+      }
+      else if (S.op == "pop_back_val") { Tracked t = v.pop_back_val(); if (t.v != m.back()) { std::printf("MISBEHAVIOUR: pop_back_val returned %d, expected %d\n", t.v, m.back()); bad = 1; } m.pop_back(); }
+      else if (S.op == "copy_assign") { Vec w; std::vector<int> mw; if (!build(w, mw, S.get("o_heap"), S.get("o_size"), S.get("o_capa"), 500)) return 3; L.copies = 0; v = w; m = mw; L.throwAt = -1; if (contents(w) != mw) { std::printf("MISBEHAVIOUR: source of the copy assignment changed\n"); bad = 1; } }
+      else if (S.op == "copy_ctor") { L.copies = 0; Vec w(v); L.throwAt = -1; if (contents(w) != m) { std::printf("MISBEHAVIOUR: copy differs from its source: %s vs %s\n", show(contents(w)).c_str(), show(m).c_str()); bad = 1; } }
+      else if (S.op == "move_ctor") { const void *d0 = v.data(); bool wasHeap = (long)v.capacity() > (long)R_N || R_FLAVOUR == 2; Vec w(std::move(v)); if (contents(w) != m) { std::printf("MISBEHAVIOUR: move-constructed vector differs from its source\n"); bad = 1; } if (R_FLAVOUR != 3 && wasHeap && S.get("heap") && w.data() != d0) { std::printf("MISBEHAVIOUR: heap buffer not handed over by the move constructor\n"); bad = 1; } m.clear(); }
+      else if (S.op == "count_ctor") { L.copies = 0; Vec w(static_cast<typename Vec::size_type>(count), *arg); L.throwAt = -1; std::vector<int> mw((size_t)count, argv); if (contents(w) != mw) { std::printf("MISBEHAVIOUR: Vector(count, value) holds %s\n", show(contents(w)).c_str()); bad = 1; } }
       else if (S.op == "reserve") { v.reserve(static_cast<typename Vec::size_type>(count)); }
       else if (S.op == "shrink_to_fit") { v.shrink_to_fit(); }
 #if R_FLAVOUR == R_FLAVOUR2 && R_N == R_N2
@@ -241,9 +256,9 @@ static int runOnce(const Scenario &S, long throwAt, long allocFailAt) {
       if (ret >= 0 && ret != pos) fail("returned position " + std::to_string(ret) + " expected " + std::to_string(pos));
       if (v.size() > v.capacity()) fail("size() > capacity()");
       if (!two && S.op != "shrink_to_fit" && v.capacity() < capBefore) fail("capacity decreased");
-      if (!two && m.size() <= capBefore && S.op != "shrink_to_fit" && S.op != "reserve" && (v.data() != dataBefore || A.nalloc + A.nrealloc != allocsBefore)) fail("reallocation although the result fits the capacity");
+      if (!two && !otherObj && m.size() <= capBefore && S.op != "shrink_to_fit" && S.op != "reserve" && (v.data() != dataBefore || A.nalloc + A.nrealloc != allocsBefore)) fail("reallocation although the result fits the capacity");
 #if R_FLAVOUR == 1
-      if (!two && !S.get("heap") && (long)m.size() <= R_N && S.op != "reserve" && (A.nalloc + A.nrealloc != allocsBefore || v.capacity() != R_N)) fail("inline SmallVector within N allocated or reports capacity() != N");
+      if (!two && !otherObj && !S.get("heap") && (long)m.size() <= R_N && S.op != "reserve" && (A.nalloc + A.nrealloc != allocsBefore || v.capacity() != R_N)) fail("inline SmallVector within N allocated or reports capacity() != N");
 #endif
     }
     for (const auto &e : v) e.checkAlive("visible element");
